@@ -26,6 +26,8 @@
 //	         the size's spec field, or admission only after `calls < size`) (c13_buf.go).
 //	R-C13-8  constant index into a slice of run-time length: len >= k+1 on every path, by interval
 //	         reasoning over the engine's facts about len(x) (c13_idx.go).
+//	R-C13-9  the value result of a (value, err) call is not stored into an unconditionally
+//	         dereferenced pointer field on a path where err may be non-nil (c13_nil.go).
 //	R-C13-6  non-comma-ok type assertion on ctx.GetInputResponse()/GetOutputResponse() needs a
 //	         dominating non-nil test of the asserted value.
 //
@@ -61,6 +63,15 @@
 //	Mock.Handle: new `strings.Split(path, "/")[1]` without a length test                   -> R-C13-8 (new site)
 //	(silent: `2 <= len(match)`; `n := len(parts); if n != 2`; `empty := len(kvs) < 1; if empty`;
 //	`!(len(p) != 1 || p[0] != x)`)
+//	mux.reload: `tracer, err = tracing.New(..); if err != nil {log}` (round-3 seeded a); `tracer =
+//	  tracer0` moved out of the else                                                       -> R-C13-9 reload|store ... into muxInstance.tracer
+//	topicmapper getPolicyRoute: append of &policyRe{re: r} moved out of the else           -> R-C13-9 getPolicyRoute|store ... into policyRe.re
+//	putRouteToCache: `mi.cache != nil` guard deleted (cache comes from a logged NewARC error) -> R-C13-9 reload|store ... into muxInstance.cache
+//	(silent: `if err == nil {tracer = tracer0} else {log}`; `if err != nil {log; tracer0 = NoopTracer};
+//	tracer = tracer0`; `r = nil` on error + `if r != nil {store}`; connectcontrol storing a nil
+//	regexp whose every use is nil-tested)
+//	NOT caught: round-3 seeded b (pipeline doHandle END test on the alias): a nil filters.Filter
+//	interface is called; C02's R-C02-3 decides it, no C13 rule added.
 //	NOT caught: round-2 seeded a (ratelimiter Spec.Validate rewritten so that an empty effective
 //	policy reference is skipped): validation and bindPolicyToURL still read the same fields; that
 //	the two lookups agree is a value-semantic equivalence, no shape rule decides it.
@@ -105,6 +116,7 @@ func c13(c *core.Ctx) string {
 	c.Rule("R-C13-5", "regexp.MustCompile applied to a spec field requires format=regexp on that field (or validation code that compiles it)")
 	c.Rule("R-C13-7", "sized buffers: a struct field that receives make([]T, n) with a run-time n and is indexed by a cursor / computed slot (not a loop variable) in the reachable code is proven non-empty at the index (dominating length test), or reviewed with a checked reason: every size reaching the constructor is a spec field with schema minimum >= 1, or a result is only recorded after a strict test has shown the size positive")
 	c.Rule("R-C13-8", "constant index x[k] into a slice of run-time length (not a parameter) in the reachable code: on every path len(x) >= k+1 is established by dominating comparisons of len(x) with constants, by what the producing call guarantees (non-nil Find*Submatch: 1, strings.Split* with a non-empty constant separator: 1), or by a reviewed reason")
+	c.Rule("R-C13-9", "a pointer field that is dereferenced somewhere without a nil test never receives, in the reachable code, the value result of a `v, err := f()` call on a path where err may be non-nil (err known nil since the call, or the value known non-nil, on every path to the store)")
 	c.Rule("R-C13-6", "a non-comma-ok type assertion on the value of ctx.GetInputResponse()/GetOutputResponse() is dominated by a non-nil test of that value")
 	c.NotDecided = []string{
 		"implicit panics in general (nil map/pointer dereference, index out of range, third-party code); only the listed operation classes are audited",
@@ -144,6 +156,8 @@ func c13(c *core.Ctx) string {
 	lap("R-C13-7")
 	c13ConstIndexes(c, g, sf)
 	lap("R-C13-8")
+	c13NilStores(c, g, sf)
+	lap("R-C13-9")
 	lap("R-C13-5")
 	return "Audit of the panic sites an accepted configuration can reach: reference call graph from the lifecycle and Handle methods of every filter kind and of Pipeline/HTTPServer/GlobalFilter/MQTTProxy (recover barriers cut), explicit panics and integer divisors enumerated as a ratchet against a reviewed table, spec-field guards matched with validation code by field object, RawPayload/IsStream typestate and response downcasts decided path-sensitively on every path. Not decided: implicit panics in general, request-side downcasts, environment-dependent failures, whether a Validate() that reads a field rejects the right values."
 }
